@@ -97,6 +97,21 @@ def gumbelMinMsm [OfNat α 0] (x : List α) : α × α :=
   let b := gm_msm_b (sdUnbiased x)
   (gm_msm_a b (mean x), b)
 
+/-- Sample quantities of `weibull.msm`: mean `a1 = x.mean()`, population variance `m2 = x.var()`, third central moment
+`m3 = mean((x - a1)**3)` and the coefficient of skewness `c1 = m3 / m2**1.5` handed to the root search. -/
+def central (l : List α) (k : Nat) [OfNat α 0] : α :=
+  let m := mean l
+  sum (l.map fun x => (List.replicate k (x - m)).foldl (· * ·) (1.0 : α)) / (l.length : α)
+def sampleSkew [OfNat α 0] (l : List α) : α := central l 3 / TranscOps.rpow (central l 2) (1.5 : α)
+
+/-- `weibull.msm(x)` given the shape `c` returned by the root search of the skewness equation
+`wb_msm_eq c (sampleSkew x) = 0` (brentq on [0.1, 1000]): → (loc, scale, shape). -/
+def weibullMsmGiven [OfNat α 0] (c : α) (x : List α) : α × α × α :=
+  let g1 := wb_msm_g1 c
+  let g2 := wb_msm_g2 c
+  let b := wb_msm_b g1 g2 (central x 2)
+  (wb_msm_a (mean x) b g1, b, c)
+
 /-- The two estimating equations `mle_eq` of `gumbel.mle` at `(loc, scale)`. -/
 def gumbelMleEq [OfNat α 0] (loc scale : α) (z : List α) : α × α :=
   let n : α := (z.length : α)
